@@ -149,6 +149,18 @@ def regenerate(ctx, H):
     ctx.gen_meta = metas
 
 
+def check_fingerprints(ctx, H):
+    """Hand-modelled source (tie [C]): has the text the model mirrors changed since the model was validated against it?"""
+    from gen import fingerprint, fingerprint_specs
+    spec = getattr(H, 'FINGERPRINT', None) or fingerprint_specs.SPECS.get(ctx.pid)
+    if not spec:
+        return None
+    ok, changed, cur = fingerprint.compare(ctx.repo, spec)
+    ctx.fingerprints = {'functions': cur, 'changed': changed}
+    return None if ok else ('the source of hand-modelled function(s) changed since the model was validated against it: '
+                            + ', '.join(changed))
+
+
 def run_check(pid, tier, seed):
     t0 = time.time()
     env.setup_sys_path()
@@ -164,6 +176,9 @@ def run_check(pid, tier, seed):
         regenerate(ctx, H)
         if not ctx.gen_ok:
             broken.append({'what': 'translator', 'detail': ctx.gen_error})
+        fp = check_fingerprints(ctx, H)
+        if fp:
+            broken.append({'what': 'source-fingerprint', 'detail': fp})
         proofs = coq.check_proofs(pid, ctx.scratch, deps=getattr(H, 'DEPS', ()),
                                   files=getattr(H, 'STATEMENT_FILES', ('Properties.v',)))
         ctx.proofs = proofs
@@ -235,6 +250,7 @@ def run_check(pid, tier, seed):
         'theorems': proofs['theorems'],
         'proof_wall_s': proofs.get('wall_s'),
         'generated_from': ctx.gen_meta,
+        'source_fingerprints': getattr(ctx, 'fingerprints', None),
         'translator_ok': ctx.gen_ok,
         'evaluations': int(explore.get('evaluations', 0)),
         'distinct_nontrivial': int(explore.get('distinct_nontrivial', 0)),
